@@ -3,7 +3,7 @@
    arithmetic; no sampling.  No axioms.  The one external ingredient is the specification of
    Range::from_sparse (Range_proofs.from_sparse_spec, property C05), which enters the section
    [Main] as a hypothesis with exactly that statement and is discharged in Properties/C02.v. *)
-From Calamine Require Import Prelude Range Range_spec RK RK_proofs BiffRec.
+From Calamine Require Import Prelude Range Range_spec Range_proofs RK RK_proofs BiffRec.
 Open Scope N_scope.
 Set Implicit Arguments.
 Set Default Proof Using "Type".
@@ -151,6 +151,8 @@ Notation parse_label := (parse_label decode16).
 Notation step := (step fdiv100 decode16 en).
 Notation sheet_loop := (sheet_loop fdiv100 decode16 en).
 Notation item_cells := (item_cells fdiv100 decode16 en).
+Notation item_read := (item_read fdiv100 decode16 en).
+Notation item_cells_gen := (item_cells_gen fdiv100 decode16 en).
 Notation num_data := (num_data en).
 Notation mulrk_denote := (mulrk_denote fdiv100 en).
 Notation str_text := (str_text decode16).
@@ -265,9 +267,8 @@ Proof.
     - rewrite rd_le_nil. change (256 ^ N.of_nat 2) with 65536. apply N.mod_small. lia.
     - rewrite !app_length, !le_bytes_length, flat_rkrec_length. lia. }
   rewrite Hcl.
-  destruct (cf + n - 1 <? cf) eqn:E1; [lia|].
-  replace (cf + n - 1 - cf + 1) with n by lia.
-  destruct (65535 <? n) eqn:E2; [lia|].
+  destruct (cf + n - 1 + 1 <? cf) eqn:E1; [lia|].
+  replace (cf + n - 1 + 1 - cf) with n by lia.
   rewrite N.eqb_refl. cbn [negb].
   (* the middle slice is the concatenation of the RkRecs *)
   assert (Hmid : firstn (6 + 6 * length rks - 6)
@@ -321,7 +322,8 @@ Proof.
   destruct (head_fields (le_bytes 4 isst) Hr Hc Hi) as (-> & -> & _).
   rewrite rd_app_skip by reflexivity. rewrite rd_le_nil.
   change (256 ^ N.of_nat 4) with 4294967296. rewrite N.mod_small by exact Hs.
-  cbn [BiffRec.item_cells]. destruct (nthN (e_strings en) isst) as [[|c s]|]; reflexivity.
+  unfold BiffRec.item_cells. cbn [BiffRec.item_cells_gen].
+  destruct (nthN (e_strings en) isst) as [[|c s]|]; reflexivity.
 Qed.
 
 (* ---------- XLUnicodeString (LABEL, STRING) ---------- *)
@@ -424,7 +426,7 @@ Qed.
 (* ---------- FormulaValue ---------- *)
 Definition cached_result (c : cached) : option data :=
   match c with
-  | CStr _ => None                      (* the value comes with the STRING record *)
+  | CStr _ _ => None                    (* the value comes with the STRING record *)
   | _ => Some (cached_data decode16 c)
   end.
 
@@ -438,7 +440,8 @@ Proof. reflexivity. Qed.
 Theorem formula_cached_value : forall c, wf_cached c = true ->
   parse_formula_value (enc_cached c) = Ok (cached_result c).
 Proof.
-  intros c H. destruct c as [bits|b|e| |s]; cbn [enc_cached cached_result cached_data].
+  intros c H. destruct c as [bits|b|e| |s more]; unfold cached_data;
+    cbn [enc_cached cached_result cached_data_gen].
   - cbn [wf_cached] in H. apply andb_true_iff in H as [Hb Hnf].
     unfold parse_formula_value. rewrite le_bytes_length.
     cbn [Nat.leb Nat.ltb Nat.sub andb].
@@ -513,12 +516,7 @@ Proof.
       - apply rd2. lia.
       - rewrite !app_length, !le_bytes_length. reflexivity. }
     rewrite Hcf, Hcl.
-    destruct ((1 <=? rl) && (1 <=? cl)) eqn:E; cbn [obind fst snd]; unfold sub32, add32, U32MAX.
-    + destruct (rf <=? rl - 1) eqn:E1; [|lia]. cbn [obind].
-      destruct (rl - 1 - rf + 1 <=? 4294967295) eqn:E2; [|lia]. cbn [obind].
-      destruct (cf <=? cl - 1) eqn:E3; [|lia]. cbn [obind].
-      destruct (cl - 1 - cf + 1 <=? 4294967295) eqn:E4; [|lia]. reflexivity.
-    + rewrite !N.leb_refl. cbn [obind]. rewrite !N.sub_diag. reflexivity.
+    destruct ((1 <=? rl) && (1 <=? cl)) eqn:E; reflexivity.
   - rewrite !lenN_app, !lenN_le, !lenN_cons, lenN_nil.
     cbn [N.of_nat Pos.of_succ_nat Pos.succ].
     change (2 + (2 + (2 + (2 + (1 + (1 + 0))))) =? 10) with true. cbv iota.
@@ -534,12 +532,7 @@ Proof.
       - apply rd2. lia.
       - rewrite !app_length, !le_bytes_length. reflexivity. }
     rewrite Hcf, Hcl.
-    destruct ((1 <=? rl) && (1 <=? cl)) eqn:E; cbn [obind fst snd]; unfold sub32, add32, U32MAX.
-    + destruct (rf <=? rl - 1) eqn:E1; [|lia]. cbn [obind].
-      destruct (rl - 1 - rf + 1 <=? 4294967295) eqn:E2; [|lia]. cbn [obind].
-      destruct (cf <=? cl - 1) eqn:E3; [|lia]. cbn [obind].
-      destruct (cl - 1 - cf + 1 <=? 4294967295) eqn:E4; [|lia]. reflexivity.
-    + rewrite !N.leb_refl. cbn [obind]. rewrite !N.sub_diag. reflexivity.
+    destruct ((1 <=? rl) && (1 <=? cl)) eqn:E; reflexivity.
 Qed.
 
 
@@ -599,22 +592,22 @@ Proof. intros m s H. unfold wf_xlstr in H. lia. Qed.
 Definition formula_body (row col ixfe : N) (c : cached) (grbit chn : N) (fmla : list N) : list N :=
   cell_head row col ixfe ++ enc_cached c ++ le_bytes 2 grbit ++ le_bytes 4 chn ++ fmla.
 
-(* what the FORMULA record itself pushes *)
-Definition formula_result (ixfe : N) (c : cached) : option data :=
+(* what the FORMULA record itself pushes (the same under both readings of a string result) *)
+Definition formula_result (full : bool) (ixfe : N) (c : cached) : option data :=
   match c with
-  | CStr _ => None                      (* the value comes with the STRING record *)
-  | _ => Some (formula_data decode16 en ixfe c)
+  | CStr _ _ => None                    (* the value comes with the STRING record *)
+  | _ => Some (formula_data_gen decode16 en full ixfe c)
   end.
 
-Lemma step_formula : forall row col ixfe c grbit chn fmla cells fpos fmls,
+Lemma step_formula : forall full row col ixfe c grbit chn fmla cells fpos fmls,
   row < 65536 -> col < 65536 -> ixfe < 65536 -> wf_cached c = true ->
   step (mkRec 6 (formula_body row col ixfe c grbit chn fmla) None) cells fpos fmls =
-    Ok (match formula_result ixfe c with
+    Ok (match formula_result full ixfe c with
         | Some x => Next (cells ++ [((row, col), x)]) (row, col) (fmls ++ [(row, col)])
         | None => Next cells (row, col) (fmls ++ [(row, col)])
         end).
 Proof.
-  intros row col ixfe c grbit chn fmla cells fpos fmls Hr Hc Hi Hwf. rewrite step_6.
+  intros full row col ixfe c grbit chn fmla cells fpos fmls Hr Hc Hi Hwf. rewrite step_6.
   unfold formula_body.
   assert (HL : lenN (cell_head row col ixfe ++ enc_cached c ++ le_bytes 2 grbit
                      ++ le_bytes 4 chn ++ fmla) = 20 + lenN fmla).
@@ -632,22 +625,225 @@ Proof.
   destruct c; reflexivity.
 Qed.
 
-(* ---- one item through the loop ---- *)
-Definition nrec (it : item) : nat :=
-  match it with IFormula _ _ _ (CStr _) _ _ _ => 2 | _ => 1 end.
-Definition nrecs (l : list item) : nat := fold_right (fun it n => (nrec it + n)%nat) 0%nat l.
+(* ---- a record followed by its CONTINUE records ---- *)
+Definition cont_ok (b : list N) : Prop := 0 < lenN b /\ lenN b < 65536.
 
+Lemma collect_cont_end : forall fuel rest acc, starts_cont rest = false ->
+  collect_cont (S fuel) rest acc = Ok (acc, rest).
+Proof.
+  intros fuel rest acc H. cbn [collect_cont].
+  destruct rest as [|c0 [|c1 [|l0 [|l1 [|x body]]]]]; try reflexivity.
+  cbn [starts_cont] in H. rewrite H. reflexivity.
+Qed.
+
+Lemma collect_cont_frames : forall conts fuel rest acc,
+  Forall cont_ok conts -> starts_cont rest = false -> (length conts < fuel)%nat ->
+  collect_cont fuel (flat_map (frame 60) conts ++ rest) acc = Ok (acc ++ conts, rest).
+Proof.
+  induction conts as [|b conts IH]; intros fuel rest acc HF Hs Hf.
+  - destruct fuel as [|fuel]; [cbn in Hf; lia|]. cbn [flat_map app]. rewrite app_nil_r.
+    apply collect_cont_end, Hs.
+  - inversion HF as [|? ? [Hb0 Hb1] HF']; subst.
+    destruct fuel as [|fuel]; [cbn in Hf; lia|].
+    cbn [flat_map]. rewrite <- app_assoc. unfold frame at 1. rewrite !le2.
+    destruct b as [|x b]; [rewrite lenN_nil in Hb0; lia|].
+    cbn [app collect_cont]. rewrite !u16_le by lia. rewrite N.eqb_refl.
+    change (x :: b ++ flat_map (frame 60) conts ++ rest)
+      with ((x :: b) ++ flat_map (frame 60) conts ++ rest).
+    rewrite take_n_app. rewrite IH; [|exact HF'|exact Hs|cbn [length] in Hf; lia].
+    rewrite <- app_assoc. reflexivity.
+Qed.
+
+Lemma starts_cont_conts : forall b conts rest, 0 < lenN b ->
+  starts_cont (flat_map (frame 60) (b :: conts) ++ rest) = true.
+Proof.
+  intros b conts rest Hb. cbn [flat_map]. rewrite <- app_assoc. unfold frame. rewrite !le2.
+  destruct b as [|x b]; [rewrite lenN_nil in Hb; lia|].
+  cbn [app starts_cont]. rewrite u16_le by lia. reflexivity.
+Qed.
+
+Lemma next_record_frame_cont : forall fuel t d conts rest, t < 65536 -> lenN d < 65536 ->
+  conts <> [] -> Forall cont_ok conts -> starts_cont rest = false -> (length conts < fuel)%nat ->
+  next_record fuel (frame t d ++ flat_map (frame 60) conts ++ rest) =
+    Some (Ok (mkRec t d (Some conts), rest)).
+Proof.
+  intros fuel t d conts rest Ht Hd Hne HF Hs Hf. unfold frame at 1. rewrite !le2.
+  cbn [app next_record]. rewrite !u16_le by assumption. rewrite take_n_app.
+  destruct conts as [|b conts]; [contradiction|].
+  assert (Hb : 0 < lenN b) by (inversion HF as [|? ? [H0 _] _]; exact H0).
+  rewrite (starts_cont_conts b conts rest Hb).
+  rewrite collect_cont_frames by assumption. reflexivity.
+Qed.
+
+(* the step never looks at the continuation chunks *)
+Lemma step_cont_irrelevant : forall t d c cells fpos fmls,
+  step (mkRec t d c) cells fpos fmls = step (mkRec t d None) cells fpos fmls.
+Proof. reflexivity. Qed.
+
+Lemma loop_frame_cont : forall f t body conts rest cells fpos fmls cells' fpos' fmls',
+  t < 65536 -> lenN body < 65536 -> conts <> [] -> Forall cont_ok conts ->
+  starts_cont rest = false -> (length conts < f)%nat ->
+  step (mkRec t body None) cells fpos fmls = Ok (Next cells' fpos' fmls') ->
+  sheet_loop (S f) (frame t body ++ flat_map (frame 60) conts ++ rest) cells fpos fmls =
+  sheet_loop f rest cells' fpos' fmls'.
+Proof.
+  intros f t body conts rest cells fpos fmls cells' fpos' fmls' Ht Hb Hne HF Hs Hf Hstep.
+  cbn [BiffRec.sheet_loop]. rewrite next_record_frame_cont by assumption.
+  cbn [obind fst snd]. rewrite step_cont_irrelevant, Hstep. reflexivity.
+Qed.
+
+(* ---- ignored records in a row: nothing changes, in particular not the pending position ---- *)
+Lemma not_interpreted_60 : forall t, interpreted t = false -> t <> 60.
+Proof. intros t H ->. vm_compute in H. discriminate. Qed.
+
+Lemma wf_mid_split : forall t b, wf_mid (t, b) = true ->
+  t < 65536 /\ interpreted t = false /\ lenN b <= 8224.
+Proof.
+  intros t b H. unfold wf_mid in H. cbn [fst snd] in H.
+  apply andb_true_iff in H as [H Hl]. apply andb_true_iff in H as [Ht Hni].
+  repeat split; try lia. destruct (interpreted t); [discriminate|reflexivity].
+Qed.
+
+Lemma mids_start : forall mids rest, forallb wf_mid mids = true -> starts_cont rest = false ->
+  starts_cont (flat_map enc_mid mids ++ rest) = false.
+Proof.
+  intros [|[t b] mids] rest Hwf Hs; [exact Hs|].
+  cbn [forallb] in Hwf. apply andb_true_iff in Hwf as [Hm _].
+  apply wf_mid_split in Hm as (Ht & Hni & _).
+  cbn [flat_map]. unfold enc_mid at 1. cbn [fst snd]. rewrite <- app_assoc.
+  apply starts_cont_frame; [exact Ht|apply not_interpreted_60, Hni].
+Qed.
+
+Lemma mids_loop : forall mids f rest cells fpos fmls,
+  forallb wf_mid mids = true -> starts_cont rest = false ->
+  sheet_loop (length mids + f) (flat_map enc_mid mids ++ rest) cells fpos fmls =
+  sheet_loop f rest cells fpos fmls.
+Proof.
+  induction mids as [|[t b] mids IH]; intros f rest cells fpos fmls Hwf Hs; [reflexivity|].
+  cbn [forallb] in Hwf. apply andb_true_iff in Hwf as [Hm Hrest].
+  apply wf_mid_split in Hm as (Ht & Hni & Hl).
+  cbn [flat_map length Nat.add]. unfold enc_mid at 1. cbn [fst snd]. rewrite <- app_assoc.
+  rewrite (@loop_frame (length mids + f) t b (flat_map enc_mid mids ++ rest) cells fpos fmls
+             cells fpos fmls); try lia.
+  - apply IH; assumption.
+  - apply mids_start; assumption.
+  - apply step_other, Hni.
+Qed.
+
+(* a record of any type but FORMULA leaves the pending position alone: of the records that may
+   legally follow a FORMULA only another FORMULA moves it *)
+Lemma step_keeps_fpos : forall r cells fpos fmls cells' fpos' fmls',
+  f_typ r <> 6 -> step r cells fpos fmls = Ok (Next cells' fpos' fmls') -> fpos' = fpos.
+Proof.
+  intros [t d c] cells fpos fmls cells' fpos' fmls' Hne H. cbn [f_typ] in Hne.
+  unfold BiffRec.step in H. cbn [f_typ f_data] in H.
+  repeat match type of H with
+         | (if ?b then _ else _) = _ =>
+             let E := fresh "E" in destruct b eqn:E; [try (apply N.eqb_eq in E; contradiction)|]
+         end;
+  repeat match type of H with
+         | obind ?o _ = _ => destruct o; cbn [obind] in H; try discriminate
+         end;
+  try discriminate; try (inversion H; reflexivity).
+Qed.
+
+(* ---- the STRING record of a string result, with or without CONTINUE records ---- *)
+Lemma lenN_utf16le : forall units, lenN (utf16le units) = 2 * lenN units.
+Proof. intros units. unfold lenN. rewrite utf16le_length. lia. Qed.
+
+Lemma cstr_units_len : forall s more,
+  lenN (cstr_units s more) = lenN (s_units s) + lenN (flat_map s_units more).
+Proof. intros s more. unfold cstr_units. apply lenN_app. Qed.
+
+Lemma lenN_frag_chars : forall s,
+  lenN (frag_chars s) = if s_wide s then 2 * lenN (s_units s) else lenN (s_units s).
+Proof. intros [units wide]. unfold frag_chars. cbn [s_units s_wide]. destruct wide; [apply lenN_utf16le|reflexivity]. Qed.
+
+Lemma wf_frag_len : forall s, wf_frag s = true ->
+  (if s_wide s then 2 * lenN (s_units s) else lenN (s_units s)) <= 8220.
+Proof.
+  intros s H. unfold wf_frag in H. apply andb_true_iff in H as [H _].
+  rewrite lenN_frag_chars in H. lia.
+Qed.
+
+Theorem parse_string_first : forall s more,
+  wf_frag s = true -> lenN (cstr_units s more) <= 32767 ->
+  parse_string (enc_string_rec s more) = Ok (decode16 (utf16le (s_units s))).
+Proof.
+  intros [units wide] more Hwf HT. pose proof (cstr_units_len (mkStr units wide) more) as HL.
+  pose proof (wf_frag_len _ Hwf) as Hlen.
+  unfold wf_frag in Hwf. cbn [s_units s_wide] in *.
+  apply andb_true_iff in Hwf as [_ Hall].
+  unfold BiffRec.parse_string, enc_string_rec, frag_chars. cbn [s_units s_wide].
+  set (T := lenN (cstr_units (mkStr units wide) more)) in *.
+  set (n := lenN units) in *.
+  rewrite rd2 by lia. rewrite le2. cbn [app nth skipn]. rewrite odd_flag.
+  rewrite !lenN_cons.
+  destruct wide.
+  - rewrite lenN_utf16le. fold n.
+    destruct (1 + (1 + (1 + 2 * n)) <? 3) eqn:E; [lia|].
+    replace (2 * n / 2) with n by lia. rewrite N.min_l by lia.
+    rewrite firstn_all2; [reflexivity|]. rewrite utf16le_length. unfold n, lenN. lia.
+  - fold n. destruct (1 + (1 + (1 + n)) <? 3) eqn:E; [lia|].
+    rewrite N.min_l by lia. rewrite firstn_all2 by (unfold n, lenN; lia).
+    rewrite compressed_expand by exact Hall. reflexivity.
+Qed.
+
+Lemma lenN_string_rec : forall s more,
+  lenN (enc_string_rec s more) = 3 + (if s_wide s then 2 * lenN (s_units s) else lenN (s_units s)).
+Proof.
+  intros [units wide] more. unfold enc_string_rec, frag_chars. cbn [s_units s_wide].
+  rewrite !lenN_app, lenN_le, lenN_cons, lenN_nil. destruct wide; [rewrite lenN_utf16le|]; lia.
+Qed.
+
+Lemma lenN_cont_rec : forall m,
+  lenN (enc_cont_rec m) = 1 + (if s_wide m then 2 * lenN (s_units m) else lenN (s_units m)).
+Proof.
+  intros [units wide]. unfold enc_cont_rec, frag_chars. cbn [s_units s_wide].
+  rewrite lenN_cons. destruct wide; [rewrite lenN_utf16le|]; lia.
+Qed.
+
+Lemma conts_ok : forall more, forallb wf_frag more = true ->
+  Forall cont_ok (map enc_cont_rec more).
+Proof.
+  induction more as [|m more IH]; intros H; [constructor|].
+  cbn [forallb] in H. apply andb_true_iff in H as [Hm Hrest]. cbn [map]. constructor.
+  - pose proof (wf_frag_len _ Hm) as Hl. unfold cont_ok. rewrite lenN_cont_rec.
+    destruct (s_wide m); lia.
+  - apply IH, Hrest.
+Qed.
+
+Lemma flat_map_map : forall (A B C : Type) (g : A -> B) (h : B -> list C) l,
+  flat_map h (map g l) = flat_map (fun x => h (g x)) l.
+Proof. induction l as [|x l IH]; [reflexivity|]. cbn [map flat_map]. now rewrite IH. Qed.
+
+(* ---- one item through the loop ---- *)
+(* records the loop sees (a record and its CONTINUEs count once) / CONTINUE records folded in *)
+Definition nrec (it : item) : nat :=
+  match it with
+  | IFormula _ _ _ c _ _ _ mid =>
+      S (length mid + match c with CStr _ _ => 1 | _ => 0 end)
+  | _ => 1
+  end.
+Definition ncont (it : item) : nat :=
+  match it with IFormula _ _ _ (CStr _ more) _ _ _ _ => length more | _ => 0%nat end.
+Definition nrecs (l : list item) : nat := fold_right (fun it n => (nrec it + n)%nat) 0%nat l.
+Definition nconts (l : list item) : nat := fold_right (fun it n => (ncont it + n)%nat) 0%nat l.
+
+(* the loop pushes what the reader takes from the item ([item_read]; equal to [item_cells]
+   outside known_C02's class) *)
 Lemma item_loop : forall it f rest cells fpos fmls,
-  wf_item it = true -> starts_cont rest = false ->
+  wf_item it = true -> starts_cont rest = false -> (ncont it < f)%nat ->
   exists fpos',
     sheet_loop (nrec it + f) (enc_item it ++ rest) cells fpos fmls =
-    sheet_loop f rest (cells ++ item_cells it) fpos' (fmls ++ item_fmls it).
+    sheet_loop f rest (cells ++ item_read it) fpos' (fmls ++ item_fmls it).
 Proof.
-  intros it f rest cells fpos fmls Hwf Hs.
+  intros it f rest cells fpos fmls Hwf Hs Hfuel.
   destruct it as [row col ixfe bits|row col ixfe fm|row cf rks|row col ixfe isst|row col ixfe s
-                 |row col ixfe b|row col ixfe e|row col ixfe c grbit chn fmla
+                 |row col ixfe b|row col ixfe e|row col ixfe c grbit chn fmla mid
                  |wide rf rl cf cl|typ body];
-    cbn [wf_item] in Hwf; cbn [enc_item nrec BiffRec.item_cells item_fmls Nat.add];
+    cbn [wf_item] in Hwf; unfold BiffRec.item_read;
+    cbn [enc_item nrec BiffRec.item_cells_gen item_fmls Nat.add];
     rewrite ?app_nil_r.
   - (* NUMBER *)
     apply andb_true_iff in Hwf as [Hc Hb]. apply wf_cell_split in Hc as (Hr & Hc & Hi).
@@ -688,7 +884,8 @@ Proof.
     exists fpos. apply loop_frame; try assumption; try lia.
     + rewrite lenN_app, lenN_head. cbn. lia.
     + rewrite step_517, parse_errcell_enc by lia. reflexivity.
-  - (* FORMULA (+ STRING) *)
+  - (* FORMULA, the records between, (+ STRING + CONTINUEs) *)
+    apply andb_true_iff in Hwf as [Hwf Hmid].
     apply andb_true_iff in Hwf as [Hwf Hfl]. apply andb_true_iff in Hwf as [Hwf Hch].
     apply andb_true_iff in Hwf as [Hwf Hg]. apply andb_true_iff in Hwf as [Hc Hca].
     apply wf_cell_split in Hc as (Hr & Hc & Hi).
@@ -696,29 +893,49 @@ Proof.
     assert (HL : lenN (formula_body row col ixfe c grbit chn fmla) < 65536).
     { unfold formula_body. rewrite !lenN_app, lenN_head, !lenN_le. unfold lenN at 1.
       rewrite enc_cached_length. cbn [N.of_nat Pos.of_succ_nat Pos.succ]. lia. }
-    exists (row, col).
-    destruct c as [bits|b|e| |s].
-    + rewrite ?app_nil_r. apply loop_frame; try assumption; try lia.
-      rewrite step_formula by (try lia; assumption). reflexivity.
-    + rewrite ?app_nil_r. apply loop_frame; try assumption; try lia.
-      rewrite step_formula by (try lia; assumption). reflexivity.
-    + rewrite ?app_nil_r. apply loop_frame; try assumption; try lia.
-      rewrite step_formula by (try lia; assumption). reflexivity.
-    + rewrite ?app_nil_r. apply loop_frame; try assumption; try lia.
-      rewrite step_formula by (try lia; assumption). reflexivity.
-    + (* string result: FORMULA pushes nothing, the STRING record supplies the value *)
-      cbn [wf_cached] in Hca. pose proof Hca as Hws.
-      pose proof (wf_xlstr_len _ _ Hws) as Hlen.
-      rewrite <- app_assoc. cbn [Nat.add].
-      rewrite (@loop_frame (S f) 6 (formula_body row col ixfe (CStr s) grbit chn fmla)
-                 (frame 519 (enc_xlstr s) ++ rest) cells fpos fmls cells (row, col)
-                 (fmls ++ [(row, col)]));
-        try lia.
-      * apply loop_frame; try assumption; try lia.
-        -- rewrite lenN_xlstr. destruct (s_wide s); lia.
-        -- rewrite step_519, (@parse_string_enc 4000 s) by (try lia; assumption). reflexivity.
-      * apply starts_cont_frame; lia.
-      * rewrite step_formula by (try lia; cbn [wf_cached]; assumption). reflexivity.
+    exists (row, col). rewrite <- !app_assoc.
+    (* FORMULA, then the ignored records: the state after both *)
+    assert (Hhead : forall g tail, starts_cont tail = false ->
+              sheet_loop (S (length mid + g))
+                (frame 6 (formula_body row col ixfe c grbit chn fmla)
+                 ++ flat_map enc_mid mid ++ tail) cells fpos fmls =
+              sheet_loop g tail
+                (match formula_result false ixfe c with
+                 | Some x => cells ++ [((row, col), x)] | None => cells end)
+                (row, col) (fmls ++ [(row, col)])).
+    { intros g tail Ht.
+      rewrite (@loop_frame (length mid + g) 6 (formula_body row col ixfe c grbit chn fmla)
+                 (flat_map enc_mid mid ++ tail) cells fpos fmls
+                 (match formula_result false ixfe c with
+                  | Some x => cells ++ [((row, col), x)] | None => cells end)
+                 (row, col) (fmls ++ [(row, col)])); try lia.
+      - apply mids_loop; assumption.
+      - apply mids_start; assumption.
+      - rewrite (step_formula false) by (try lia; assumption).
+        destruct (formula_result false ixfe c); reflexivity. }
+    destruct c as [bits|b|e| |s more];
+      try (cbn [app]; rewrite ?app_nil_r, Nat.add_0_r; cbn [Nat.add];
+           rewrite Hhead by exact Hs; reflexivity).
+    (* string result: FORMULA pushes nothing, the STRING record supplies the value *)
+    cbn [wf_cached] in Hca. apply andb_true_iff in Hca as [Hca HT].
+    apply andb_true_iff in Hca as [Hws Hmore].
+    pose proof (wf_frag_len _ Hws) as Hlen. cbn [ncont] in Hfuel.
+    replace (S (length mid + 1 + f))%nat with (S (length mid + S f)) by lia.
+    rewrite <- app_assoc. rewrite Hhead.
+    + cbn [formula_result formula_data_gen cached_data_gen].
+      destruct more as [|m0 more'].
+      * cbn [flat_map app].
+        apply loop_frame; try assumption; try lia.
+        -- rewrite lenN_string_rec. destruct (s_wide s); lia.
+        -- rewrite step_519, parse_string_first by (try lia; assumption). reflexivity.
+      * rewrite <- (flat_map_map enc_cont_rec (frame 60)).
+        apply loop_frame_cont; try assumption; try lia.
+        -- rewrite lenN_string_rec. destruct (s_wide s); lia.
+        -- discriminate.
+        -- apply conts_ok, Hmore.
+        -- rewrite map_length. exact Hfuel.
+        -- rewrite step_519, parse_string_first by (try lia; assumption). reflexivity.
+    + apply starts_cont_frame; lia.
   - (* DIMENSIONS *)
     exists fpos. rewrite ?app_nil_r.
     pose proof (@step_dims wide rf rl cf cl cells fpos fmls) as SD. cbn [wf_item] in SD.
@@ -736,7 +953,7 @@ Lemma enc_item_starts : forall it tail, wf_item it = true -> starts_cont (enc_it
 Proof.
   intros it tail Hwf.
   destruct it as [row col ixfe bits|row col ixfe fm|row cf rks|row col ixfe isst|row col ixfe s
-                 |row col ixfe b|row col ixfe e|row col ixfe c grbit chn fmla
+                 |row col ixfe b|row col ixfe e|row col ixfe c grbit chn fmla mid
                  |wide rf rl cf cl|typ body]; cbn [enc_item];
     try (apply starts_cont_frame; lia).
   - rewrite <- app_assoc. apply starts_cont_frame; lia.
@@ -755,66 +972,113 @@ Proof.
 Qed.
 
 Lemma items_loop : forall items f rest cells fpos fmls,
-  forallb wf_item items = true -> starts_cont rest = false ->
+  forallb wf_item items = true -> starts_cont rest = false -> (nconts items < f)%nat ->
   exists fpos',
     sheet_loop (nrecs items + f) (flat_map enc_item items ++ rest) cells fpos fmls =
-    sheet_loop f rest (cells ++ flat_map item_cells items) fpos' (fmls ++ flat_map item_fmls items).
+    sheet_loop f rest (cells ++ flat_map item_read items) fpos' (fmls ++ flat_map item_fmls items).
 Proof.
-  induction items as [|it items IH]; intros f rest cells fpos fmls Hwf Hs.
+  induction items as [|it items IH]; intros f rest cells fpos fmls Hwf Hs Hf.
   - exists fpos. cbn [flat_map nrecs fold_right app Nat.add]. rewrite !app_nil_r. reflexivity.
   - cbn [forallb] in Hwf. apply andb_true_iff in Hwf as [Hit Hrest].
+    cbn [nconts fold_right] in Hf. fold (nconts items) in Hf.
     cbn [flat_map nrecs fold_right]. rewrite <- app_assoc, <- Nat.add_assoc.
     destruct (@item_loop it (fold_right (fun it n => (nrec it + n)%nat) 0%nat items + f)%nat
                 (flat_map enc_item items ++ rest) cells fpos fmls Hit
-                (items_start items rest Hrest Hs)) as [fp1 ->].
+                (items_start items rest Hrest Hs)) as [fp1 ->]; [lia|].
     fold (nrecs items).
-    destruct (IH f rest (cells ++ item_cells it) fp1 (fmls ++ item_fmls it) Hrest Hs) as [fp2 ->].
+    destruct (IH f rest (cells ++ item_read it) fp1 (fmls ++ item_fmls it) Hrest Hs) as [fp2 ->];
+      [lia|].
     exists fp2. rewrite <- !app_assoc. reflexivity.
 Qed.
 
 Lemma frame_length : forall t d, length (frame t d) = (4 + length d)%nat.
 Proof. intros t d. unfold frame. rewrite !app_length, !le_bytes_length. lia. Qed.
 
-Lemma enc_item_length : forall it, (nrec it <= length (enc_item it))%nat.
+Lemma flat_map_length_ge : forall (A B : Type) (f : A -> list B) k l,
+  (forall x, k <= length (f x))%nat -> (k * length l <= length (flat_map f l))%nat.
 Proof.
-  intros it. destruct it as [| | | | | | |row col ixfe c grbit chn fmla|wide ? ? ? ?|];
-    cbn [enc_item nrec]; rewrite ?app_length, ?frame_length; try lia.
-  - destruct c; rewrite ?frame_length; cbn [length]; lia.
+  intros A B f k l H. induction l as [|x l IH]; [cbn; lia|].
+  cbn [flat_map length]. rewrite app_length. specialize (H x). lia.
+Qed.
+
+(* fuel: every record the loop sees and every folded CONTINUE has at least its 4 header bytes *)
+Lemma enc_item_length : forall it, (nrec it + ncont it <= length (enc_item it))%nat.
+Proof.
+  intros it. destruct it as [| | | | | | |row col ixfe c grbit chn fmla mid|wide ? ? ? ?|];
+    cbn [enc_item nrec ncont]; rewrite ?app_length, ?frame_length; try lia.
+  - pose proof (@flat_map_length_ge _ _ enc_mid 4 mid) as Hm.
+    assert (Hm' : (4 * length mid <= length (flat_map enc_mid mid))%nat).
+    { apply Hm. intros [t b]. unfold enc_mid. rewrite frame_length. lia. }
+    destruct c as [| | | |s more]; rewrite ?app_length, ?frame_length; cbn [length]; try lia.
+    pose proof (@flat_map_length_ge _ _ (fun m => frame 60 (enc_cont_rec m)) 4 more) as Hc.
+    assert (Hc' : (4 * length more
+                   <= length (flat_map (fun m => frame 60 (enc_cont_rec m)) more))%nat).
+    { apply Hc. intros m. rewrite frame_length. lia. }
+    lia.
   - destruct wide; rewrite frame_length; lia.
 Qed.
 
-Lemma items_length : forall items, (nrecs items <= length (flat_map enc_item items))%nat.
+Lemma items_length : forall items,
+  (nrecs items + nconts items <= length (flat_map enc_item items))%nat.
 Proof.
   induction items as [|it items IH]; [cbn; lia|].
-  cbn [flat_map nrecs fold_right]. rewrite app_length. fold (nrecs items).
+  cbn [flat_map nrecs nconts fold_right]. rewrite app_length.
+  fold (nrecs items). fold (nconts items).
   pose proof (enc_item_length it). lia.
 Qed.
 
-(* the cell list the loop builds is the logical cell list of the layout *)
-Theorem sheet_cells_encode : forall c, wf_layout c = true ->
+(* the cell list the loop builds from any well-formed layout: what the reader takes from each
+   item, in stream order; and the formula positions *)
+Theorem sheet_cells_read : forall c, wf_layout c = true ->
   sheet_cells fdiv100 decode16 en (encode_sheet c) =
-    Ok (logical fdiv100 decode16 en c, layout_fmls c).
+    Ok (read_logical fdiv100 decode16 en c, layout_fmls c).
 Proof.
   intros [items trailer] Hwf. unfold wf_layout in Hwf. cbn [l_items l_trailer] in Hwf.
   apply andb_true_iff in Hwf as [Hit Htr]. unfold trailer_ok in Htr.
   assert (Hs : starts_cont trailer = false) by (destruct (starts_cont trailer); [discriminate|reflexivity]).
-  unfold sheet_cells, encode_sheet, logical, layout_fmls. cbn [l_items l_trailer].
+  unfold sheet_cells, encode_sheet, read_logical, layout_fmls. cbn [l_items l_trailer].
   set (tail := frame 10 [] ++ trailer).
   assert (Htail : starts_cont tail = false) by (apply starts_cont_frame; lia).
   (* enough fuel: one unit per record, and every record has at least four bytes *)
   assert (Hfuel : exists k, S (length (frame 2057 bof_body ++ flat_map enc_item items ++ tail))
-                            = S (nrecs items + S k)).
+                            = S (nrecs items + S k) /\ (nconts items < S k)%nat).
   { unfold tail. rewrite !app_length, !frame_length. pose proof (items_length items).
     exists (length bof_body + 3 + (length (flat_map enc_item items) - nrecs items)
             + (4 + length (@nil N)) + length trailer)%nat. cbn [length]. lia. }
-  destruct Hfuel as [k ->].
+  destruct Hfuel as (k & -> & Hk).
   rewrite (@loop_frame (nrecs items + S k) 2057 bof_body (flat_map enc_item items ++ tail)
              [] (0, 0) [] [] (0, 0) []); try (cbn; lia).
-  - destruct (@items_loop items (S k) tail [] (0, 0) [] Hit Htail) as [fp ->].
+  - destruct (@items_loop items (S k) tail [] (0, 0) [] Hit Htail Hk) as [fp ->].
     unfold tail. rewrite loop_eof by exact Hs. reflexivity.
   - apply items_start; assumption.
   - apply step_other. reflexivity.
 Qed.
+
+(* outside known_C02's class the reader takes exactly what the items denote *)
+Lemma item_known_none : forall it, item_known it = false -> item_read it = item_cells it.
+Proof.
+  intros it H. destruct it as [| | | | | | |row col ixfe c grbit chn fmla mid| |]; try reflexivity.
+  destruct c as [| | | |s more]; try reflexivity.
+  cbn [item_known] in H. unfold BiffRec.item_read, BiffRec.item_cells.
+  cbn [BiffRec.item_cells_gen formula_data_gen cached_data_gen]. unfold cstr_units.
+  destruct (flat_map s_units more); [rewrite app_nil_r; reflexivity|discriminate].
+Qed.
+
+Lemma known_none_read : forall c, known_C02 c = None ->
+  read_logical fdiv100 decode16 en c = logical fdiv100 decode16 en c.
+Proof.
+  intros [items trailer] H. unfold known_C02 in H. cbn [l_items] in H.
+  unfold read_logical, logical. cbn [l_items].
+  destruct (existsb item_known items) eqn:E; [discriminate|]. clear H.
+  induction items as [|it items IH]; [reflexivity|].
+  cbn [existsb] in E. apply orb_false_iff in E as [E1 E2].
+  cbn [flat_map]. rewrite item_known_none by exact E1. rewrite IH by exact E2. reflexivity.
+Qed.
+
+Theorem sheet_cells_encode : forall c, wf_layout c = true -> known_C02 c = None ->
+  sheet_cells fdiv100 decode16 en (encode_sheet c) =
+    Ok (logical fdiv100 decode16 en c, layout_fmls c).
+Proof. intros c Hwf Hk. rewrite sheet_cells_read by exact Hwf. now rewrite known_none_read. Qed.
 
 End Biff.
 
@@ -837,13 +1101,13 @@ Proof.
   - apply IH; [exact Hr|]. rewrite lenN_cons in Hc. lia.
 Qed.
 
-Lemma item_cells_grid : forall it, wf_item it = true ->
-  Forall in_grid (item_cells fdiv100 decode16 en it).
+Lemma item_cells_grid : forall full it, wf_item it = true ->
+  Forall in_grid (item_cells_gen fdiv100 decode16 en full it).
 Proof.
-  intros it Hwf.
+  intros full it Hwf.
   destruct it as [row col ixfe bits|row col ixfe fm|row cf rks|row col ixfe isst|row col ixfe s
-                 |row col ixfe b|row col ixfe e|row col ixfe c grbit chn fmla
-                 |wide rf rl cf cl|typ body]; cbn [wf_item] in Hwf; cbn [item_cells];
+                 |row col ixfe b|row col ixfe e|row col ixfe c grbit chn fmla mid
+                 |wide rf rl cf cl|typ body]; cbn [wf_item] in Hwf; cbn [item_cells_gen];
     try (constructor; [unfold in_grid, wf_cell in *; cbn [fst snd]; lia|constructor]);
     try constructor.
   - apply mulrk_denote_grid; lia.
@@ -851,14 +1115,29 @@ Proof.
     unfold in_grid, wf_cell in *. cbn [fst snd]. lia.
 Qed.
 
+Lemma items_grid : forall full items, forallb wf_item items = true ->
+  Forall in_grid (flat_map (item_cells_gen fdiv100 decode16 en full) items).
+Proof.
+  intros full items Hit.
+  induction items as [|it items IH]; [constructor|].
+  cbn [forallb] in Hit. apply andb_true_iff in Hit as [H1 H2].
+  cbn [flat_map]. apply Forall_app. split; [apply item_cells_grid, H1|apply IH, H2].
+Qed.
+
 Lemma logical_grid : forall c, wf_layout c = true ->
   Forall in_grid (logical fdiv100 decode16 en c).
 Proof.
   intros [items trailer] Hwf. unfold wf_layout in Hwf. cbn [l_items] in Hwf.
   apply andb_true_iff in Hwf as [Hit _]. unfold logical. cbn [l_items].
-  induction items as [|it items IH]; [constructor|].
-  cbn [forallb] in Hit. apply andb_true_iff in Hit as [H1 H2].
-  cbn [flat_map]. apply Forall_app. split; [apply item_cells_grid, H1|apply IH, H2].
+  apply (items_grid true), Hit.
+Qed.
+
+Lemma read_logical_grid : forall c, wf_layout c = true ->
+  Forall in_grid (read_logical fdiv100 decode16 en c).
+Proof.
+  intros [items trailer] Hwf. unfold wf_layout in Hwf. cbn [l_items] in Hwf.
+  apply andb_true_iff in Hwf as [Hit _]. unfold read_logical. cbn [l_items].
+  apply (items_grid false), Hit.
 Qed.
 End Bounds.
 
@@ -982,6 +1261,115 @@ Proof.
     unfold box_in_grid in B. unfold U32MAX. cbn [fst snd] in *. lia.
 Qed.
 
+(* ---------- Range::from_sparse as of HEAD (from_sparse_h) vs C05's model (Range.from_sparse):
+   equal on row-sorted cells inside the BIFF8 grid ---------- *)
+Section FsH.
+Variable T : Type.
+Variable d : T.
+Notation row c := (fst (fst c)).
+Notation col c := (snd (fst c)).
+
+Lemma fold_left_ext2 : forall (A B : Type) (f g : A -> B -> A) (l : list B) (a : A),
+  (forall x y, f x y = g x y) -> fold_left f l a = fold_left g l a.
+Proof.
+  intros A B f g l. induction l as [|y l IH]; intros a H; [reflexivity|].
+  cbn [fold_left]. rewrite H. apply IH, H.
+Qed.
+
+Lemma last_In : forall (A : Type) (l : list A) (x a : A), In (last (x :: l) a) (x :: l).
+Proof.
+  intros A l. induction l as [|y l IH]; intros x a; [left; reflexivity|].
+  right. change (last (x :: y :: l) a) with (last (y :: l) a). apply IH.
+Qed.
+
+Lemma fs_fold_max_le : forall (f : pos -> N) (l : list (pos * T)) m B,
+  m <= B -> (forall c, In c l -> f (fst c) <= B) ->
+  fold_left (fun m c => if m <? f (fst c) then f (fst c) else m) l m <= B.
+Proof.
+  intros f l. induction l as [|x l IH]; intros m B Hm H; [exact Hm|].
+  cbn [fold_left]. apply IH.
+  - destruct (m <? f (fst x)); [apply H; left; reflexivity|exact Hm].
+  - intros c Hc. apply H. right. exact Hc.
+Qed.
+
+Lemma guarded_fold : forall rs cs cols len (cells : list (N * N * T)) (v : list T),
+  (forall c, In c cells -> rs <= row c /\ cs <= col c) ->
+  fold_left (fun (acc : outcome (list T)) c =>
+               do v <- acc;
+               do row <- sub32 (fst (fst c)) rs;
+               do col <- sub32 (snd (fst c)) cs;
+               let idx := row * cols + col in
+               if idx <? len then Ok (list_set v (N.to_nat idx) (snd c)) else Ok v)
+            cells (Ok v) =
+  Ok (fold_left (fun v c =>
+                   let idx := (fst (fst c) - rs) * cols + (snd (fst c) - cs) in
+                   if idx <? len then list_set v (N.to_nat idx) (snd c) else v) cells v).
+Proof.
+  intros rs cs cols len cells. induction cells as [|c cells IH]; intros v H; [reflexivity|].
+  cbn [fold_left]. destruct (H c (or_introl eq_refl)) as [H1 H2].
+  assert (S1 : sub32 (row c) rs = Ok (row c - rs)).
+  { unfold sub32. destruct (rs <=? row c) eqn:E1; [reflexivity|lia]. }
+  assert (S2 : sub32 (col c) cs = Ok (col c - cs)).
+  { unfold sub32. destruct (cs <=? col c) eqn:E2; [reflexivity|lia]. }
+  cbn [obind]. rewrite S1. cbn [obind]. rewrite S2. cbn [obind]. cbv zeta.
+  destruct ((row c - rs) * cols + (col c - cs) <? len); apply IH; intros x Hx; apply H; right; exact Hx.
+Qed.
+
+Lemma from_sparse_h_sorted : forall cs : list (pos * T),
+  sorted_by_row cs -> Forall (fun c => row c < 65536 /\ col c < 256) cs ->
+  from_sparse_h d cs = from_sparse d cs.
+Proof.
+  intros [|c0 l] Hs Hg; [reflexivity|].
+  destruct (@sorted_rows T l c0 Hs) as (Hb & Hmin & Hmax).
+  assert (Hg0 : row c0 < 65536 /\ col c0 < 256) by (inversion Hg; assumption).
+  assert (Hgall : forall c, In c (c0 :: l) -> row c < 65536 /\ col c < 256)
+    by (rewrite Forall_forall in Hg; exact Hg).
+  assert (Hrs : fs_min fst (c0 :: l) = row c0).
+  { unfold fs_min. cbn [fold_left]. unfold U32MAX.
+    destruct (row c0 <? 4294967295) eqn:E; [|lia].
+    etransitivity; [|exact Hmin].
+    apply fold_left_ext2. intros x y.
+    match goal with |- (if ?b then _ else _) = _ => destruct b eqn:E' end.
+    - apply N.ltb_lt in E'. symmetry. apply N.min_r. apply N.lt_le_incl, E'.
+    - apply N.ltb_ge in E'. symmetry. apply N.min_l. exact E'. }
+  assert (Hre : fs_max fst (c0 :: l) = row (last (c0 :: l) c0)).
+  { unfold fs_max. cbn [fold_left].
+    replace (if 0 <? row c0 then row c0 else 0) with (row c0) by (destruct (0 <? row c0) eqn:E'; lia).
+    etransitivity; [|exact Hmax].
+    apply fold_left_ext2. intros x y.
+    match goal with |- (if ?b then _ else _) = _ => destruct b eqn:E' end.
+    - apply N.ltb_lt in E'. symmetry. apply N.max_r. apply N.lt_le_incl, E'.
+    - apply N.ltb_ge in E'. symmetry. apply N.max_l. exact E'. }
+  unfold from_sparse_h, from_sparse. rewrite Hrs, Hre. unfold fs_min, fs_max.
+  set (cmin := fold_left (fun m c => if snd (fst c) <? m then snd (fst c) else m) (c0 :: l) U32MAX).
+  set (cmax := fold_left (fun m c => if m <? snd (fst c) then snd (fst c) else m) (c0 :: l) 0).
+  set (rlast := row (last (c0 :: l) c0)).
+  assert (Hc1 : cmin <= col c0) by (apply (fold_min_bounds (c0 :: l) U32MAX); left; reflexivity).
+  assert (Hc2 : col c0 <= cmax) by (apply (fold_max_bounds (c0 :: l) 0); left; reflexivity).
+  assert (Hc3 : cmax <= 255).
+  { apply (@fs_fold_max_le snd (c0 :: l) 0 255); [lia|].
+    intros c Hc. destruct (Hgall c Hc). lia. }
+  assert (Hr1 : row c0 <= rlast) by (apply Hb; left; reflexivity).
+  assert (Hr2 : rlast < 65536).
+  { unfold rlast. apply Hgall. apply last_In. }
+  unfold sub32, add32, U32MAX.
+  destruct (cmin <=? cmax) eqn:E1; [|lia]. cbn [obind].
+  destruct (cmax - cmin + 1 <=? 4294967295) eqn:E2; [|lia]. cbn [obind].
+  destruct (row c0 <=? rlast) eqn:E3; [|lia]. cbn [obind].
+  destruct (rlast - row c0 + 1 <=? 4294967295) eqn:E4; [|lia]. cbn [obind].
+  cbv zeta.
+  match goal with
+  | |- _ = obind ?X _ =>
+      let H := fresh "HX" in
+      eassert (H : X = Ok _)
+        by (apply guarded_fold; intros c Hc; split;
+            [apply Hb; exact Hc|apply (fold_min_bounds (c0 :: l) U32MAX); exact Hc]);
+      rewrite H
+  end.
+  reflexivity.
+Qed.
+End FsH.
+
 Section Fmls.
 Variable fdiv100 : N -> N.
 Variable decode16 : list N -> list N.
@@ -989,30 +1377,30 @@ Variable en : env.
 
 Ltac lia := try clear fdiv100; try clear decode16; try clear en; Lia.lia.
 
-Lemma fmls_incl : forall items x,
+Lemma fmls_incl : forall full items x,
   In x (map fst (flat_map item_fmls items)) ->
-  In x (rows_of (flat_map (item_cells fdiv100 decode16 en) items)).
+  In x (rows_of (flat_map (item_cells_gen fdiv100 decode16 en full) items)).
 Proof.
-  induction items as [|it items IH]; intros x H; [exact H|].
+  intros full. induction items as [|it items IH]; intros x H; [exact H|].
   cbn [flat_map] in *. unfold rows_of in *. rewrite map_app in *.
   apply in_app_or in H. apply in_or_app. destruct H as [H|H].
   - left. destruct it; cbn [item_fmls map] in H; try contradiction.
-    cbn [item_cells map fst]. exact H.
+    cbn [item_cells_gen map fst]. exact H.
   - right. apply IH, H.
 Qed.
 
-Lemma fmls_rows_sorted : forall items,
-  StronglySorted N.le (rows_of (flat_map (item_cells fdiv100 decode16 en) items)) ->
+Lemma fmls_rows_sorted : forall full items,
+  StronglySorted N.le (rows_of (flat_map (item_cells_gen fdiv100 decode16 en full) items)) ->
   StronglySorted N.le (map fst (flat_map item_fmls items)).
 Proof.
-  induction items as [|it items IH]; intros H; [constructor|].
+  intros full. induction items as [|it items IH]; intros H; [constructor|].
   cbn [flat_map] in *. unfold rows_of in H. rewrite map_app in H. fold (rows_of) in H.
   assert (Hrest : StronglySorted N.le (map fst (flat_map item_fmls items))).
   { apply IH. apply SS_app_r in H. exact H. }
   destruct it; cbn [item_fmls app]; try exact Hrest.
-  cbn [item_cells map fst app] in H. cbn [map fst]. inversion H as [|? ? HS HF]; subst.
+  cbn [item_cells_gen map fst app] in H. cbn [map fst]. inversion H as [|? ? HS HF]; subst.
   constructor; [exact Hrest|].
-  rewrite Forall_forall in *. intros x Hx. apply HF. apply fmls_incl in Hx. exact Hx.
+  rewrite Forall_forall in *. intros x Hx. apply HF. apply (fmls_incl full) in Hx. exact Hx.
 Qed.
 
 Lemma fmls_grid : forall items, forallb wf_item items = true ->
@@ -1102,44 +1490,72 @@ Proof using from_sparse_spec_H.
 Qed.
 
 (* the formula range is built without panic *)
-Lemma fmls_range_ok : forall L c,
-  wf_layout c = true -> logical fdiv100 decode16 en c = L -> sorted_by_rowb L = true ->
-  exists r, from_sparse tt (map (fun p => (p, tt)) (layout_fmls c)) = Ok r.
+Lemma fmls_range_ok : forall full items,
+  forallb wf_item items = true ->
+  sorted_by_rowb (flat_map (item_cells_gen fdiv100 decode16 en full) items) = true ->
+  exists r, from_sparse tt (map (fun p => (p, tt)) (flat_map item_fmls items)) = Ok r.
 Proof using from_sparse_spec_H.
-  intros L c Hwf HL Hs.
-  destruct (@from_sparse_spec_H unit tt (map (fun p => (p, tt)) (layout_fmls c))) as (r & Hr & _).
+  intros full items Hwf Hs.
+  destruct (@from_sparse_spec_H unit tt (map (fun p => (p, tt)) (flat_map item_fmls items)))
+    as (r & Hr & _).
   - apply pre_from_grid.
-    + apply SS_sorted_by_row. unfold layout_fmls.
-      apply (@fmls_rows_sorted fdiv100 decode16 en). apply sorted_rows_SS.
-      unfold logical in HL. rewrite HL. exact Hs.
-    + rewrite map_map. cbn [fst]. rewrite map_id. apply fmls_grid.
-      unfold wf_layout in Hwf. apply andb_true_iff in Hwf as [H _]. exact H.
+    + apply SS_sorted_by_row.
+      apply (@fmls_rows_sorted fdiv100 decode16 en full). apply sorted_rows_SS. exact Hs.
+    + rewrite map_map. cbn [fst]. rewrite map_id. apply fmls_grid. exact Hwf.
   - exists r. exact Hr.
 Qed.
 
-(* xls_sheet_main: every legal layout c of a logical sheet L reads back as the range of L *)
+(* HEAD's from_sparse never fails *)
+Lemma from_sparse_h_ok : forall (T : Type) (d : T) (cs : list (pos * T)),
+  exists r, from_sparse_h d cs = Ok r.
+Proof. intros T d [|c cs]; eexists; reflexivity. Qed.
+
+Lemma from_sparse_h_range_of : forall L : list cellv,
+  sorted_by_rowb L = true -> Forall in_grid L ->
+  from_sparse_h DEmpty L = Ok (range_of L).
+Proof using from_sparse_spec_H.
+  intros L Hs Hg. rewrite from_sparse_h_sorted; [apply from_sparse_range_of; assumption| |exact Hg].
+  apply sorted_by_rowb_spec, Hs.
+Qed.
+
+(* what the current reader returns for EVERY well-formed layout in row order, inside and outside
+   known_C02's class: the range of [read_logical c] *)
+Theorem xls_sheet_read : forall c,
+  wf_layout c = true -> sorted_by_rowb (read_logical fdiv100 decode16 en c) = true ->
+  sheet_model fdiv100 decode16 en (encode_sheet c) = Ok (range_of (read_logical fdiv100 decode16 en c)).
+Proof using from_sparse_spec_H.
+  intros c Hwf Hs. unfold sheet_model.
+  rewrite sheet_cells_read by assumption. cbn [obind fst snd].
+  rewrite from_sparse_h_range_of; [|exact Hs|apply read_logical_grid; exact Hwf].
+  cbn [obind].
+  destruct (from_sparse_h_ok tt (map (fun p => (p, tt)) (layout_fmls c))) as [rf Hrf].
+  rewrite Hrf. reflexivity.
+Qed.
+
+(* xls_sheet_main: every legal layout c of a logical sheet L, outside the known class, reads
+   back as the range of L *)
 Theorem xls_sheet_main : forall L c,
-  legal fdiv100 decode16 en c L ->
+  legal fdiv100 decode16 en c L -> known_C02 c = None ->
   sheet_model fdiv100 decode16 en (encode_sheet c) = Ok (range_of L).
 Proof using from_sparse_spec_H.
-  intros L c (Hwf & HL & Hs). unfold sheet_model.
-  rewrite sheet_cells_encode by assumption. cbn [obind fst snd]. rewrite HL.
-  rewrite from_sparse_range_of;
-    [|exact Hs|rewrite <- HL; apply logical_grid; exact Hwf].
-  cbn [obind]. destruct (@fmls_range_ok L c Hwf HL Hs) as [rf ->]. reflexivity.
+  intros L c (Hwf & HL & Hs) Hk. rewrite <- HL, <- (known_none_read fdiv100 decode16 en c Hk).
+  apply xls_sheet_read; [exact Hwf|]. rewrite known_none_read, HL by exact Hk. exact Hs.
 Qed.
 
 (* what "range_of L" means, spelled out: tight bounding box of the cells, every cell at its
    absolute position (last record wins), Empty elsewhere inside, nothing outside *)
 Theorem xls_sheet_main_values : forall L c,
-  legal fdiv100 decode16 en c L ->
+  legal fdiv100 decode16 en c L -> known_C02 c = None ->
   exists r, sheet_model fdiv100 decode16 en (encode_sheet c) = Ok r /\ Wf r /\
     rect r = tight_bbox (map fst L) /\
     forall q, get_value r q = if in_rect r q then Some (last_write DEmpty L q) else None.
 Proof using from_sparse_spec_H.
-  intros L c (Hwf & HL & Hs). unfold sheet_model.
+  intros L c (Hwf & HL & Hs) Hk. unfold sheet_model.
   rewrite sheet_cells_encode by assumption. cbn [obind fst snd]. rewrite HL.
-  destruct (@fmls_range_ok L c Hwf HL Hs) as [rf Hrf]. rewrite Hrf.
+  destruct (from_sparse_h_ok tt (map (fun p => (p, tt)) (layout_fmls c))) as [rf Hrf].
+  rewrite Hrf.
+  assert (Hg0 : Forall in_grid L) by (rewrite <- HL; apply logical_grid; exact Hwf).
+  rewrite from_sparse_h_sorted; [|apply sorted_by_rowb_spec, Hs|exact Hg0].
   cut (exists r, from_sparse DEmpty L = Ok r /\ Wf r /\
          rect r = tight_bbox (map fst L) /\
          forall q, get_value r q = if in_rect r q then Some (last_write DEmpty L q) else None).
@@ -1156,6 +1572,261 @@ Proof using from_sparse_spec_H.
 Qed.
 
 End Main.
+
+(* ---------- totality: no input panics the sheet reader, the stated fuel suffices ---------- *)
+(* (as of the C06 hardening of /repo: MULRK, DIMENSIONS, MERGECELLS, the BoundSheet position and
+   Range::from_sparse no longer have a panic path; what is left are the two slice reads whose
+   length the callers establish first: rk_num on exactly 6 bytes, read_f64 on the 8 FormulaValue
+   bytes) *)
+Definition safe (A : Type) (o : outcome A) : Prop :=
+  match o with Panic | OutOfFuel => False | _ => True end.
+
+Lemma safe_bind : forall (A B : Type) (o : outcome A) (k : A -> outcome B),
+  safe o -> (forall x, o = Ok x -> safe (k x)) -> safe (obind o k).
+Proof. intros A B [x|e| |] k Ho Hk; cbn [obind safe] in *; try contradiction; auto. Qed.
+
+Lemma safe_not : forall (A : Type) (o : outcome A), safe o -> o <> Panic /\ o <> OutOfFuel.
+Proof. intros A [x|e| |] H; cbn [safe] in H; try contradiction; split; discriminate. Qed.
+
+Ltac safe_tac := repeat first
+  [ exact I
+  | match goal with
+    | |- safe (if ?b then _ else _) => destruct b
+    | |- safe (obind ?o _) => apply safe_bind; [|intros ? ?]
+    | |- safe (match ?x with _ => _ end) => destruct x
+    end ].
+
+Lemma parse_err_safe : forall e, safe (parse_err e).
+Proof. intros e. unfold parse_err. safe_tac. Qed.
+
+Lemma parse_bool_err_safe : forall r, safe (parse_bool_err r).
+Proof. intros r. unfold parse_bool_err. safe_tac. apply parse_err_safe. Qed.
+
+Lemma parse_dimensions_safe : forall r, safe (parse_dimensions r).
+Proof. intros r. unfold parse_dimensions. cbv zeta. safe_tac. Qed.
+
+Lemma parse_formula_value_safe : forall r, length r = 8%nat -> safe (parse_formula_value r).
+Proof.
+  intros r H. unfold parse_formula_value. rewrite H. cbv zeta.
+  change (8 <? 8)%nat with false.
+  repeat match goal with
+         | |- safe (if ?b then _ else _) => destruct b
+         end; try exact I.
+  apply safe_bind; [apply parse_err_safe|intros; exact I].
+Qed.
+
+Lemma rk_num_six : forall fdiv100 rk formats is1904, length rk = 6%nat ->
+  safe (rk_num fdiv100 rk formats is1904).
+Proof.
+  intros fdiv100 rk formats is1904 H.
+  do 7 (destruct rk as [|? rk]; try discriminate H). exact I.
+Qed.
+
+Lemma rk_chunks_six : forall n (l : list N), length l = (6 * n)%nat ->
+  Forall (fun c => length c = 6%nat) (rk_chunks l).
+Proof.
+  induction n as [|n IH]; intros l H.
+  - destruct l; [constructor|discriminate H].
+  - do 6 (destruct l as [|? l]; [cbn [length] in H; lia|]).
+    cbn [rk_chunks]. constructor; [reflexivity|]. apply IH. cbn [length] in H. lia.
+Qed.
+
+Section Total.
+Variable fdiv100 : N -> N.
+Variable decode16 : list N -> list N.
+Variable en : env.
+Ltac lia := try clear fdiv100; try clear decode16; try clear en; Lia.lia.
+
+Lemma parse_number_safe : forall r, safe (parse_number en r).
+Proof. intros r. unfold parse_number. safe_tac. Qed.
+
+Lemma parse_string_safe : forall r, safe (parse_string decode16 r).
+Proof. intros r. unfold parse_string. cbv zeta. safe_tac. Qed.
+
+Lemma parse_label_safe : forall r, safe (parse_label decode16 r).
+Proof. intros r. unfold parse_label. safe_tac. apply parse_string_safe. Qed.
+
+Lemma parse_label_sst_safe : forall r, safe (parse_label_sst en r).
+Proof. intros r. unfold parse_label_sst. safe_tac. Qed.
+
+Lemma parse_rk_safe : forall r, safe (parse_rk fdiv100 en r).
+Proof.
+  intros r. unfold parse_rk. destruct (lenN r <? 10) eqn:E; [exact I|].
+  apply safe_bind; [|intros; exact I]. apply rk_num_six.
+  rewrite firstn_length, skipn_length. unfold lenN in E. lia.
+Qed.
+
+Lemma mulrk_cells_safe : forall chunks row col,
+  Forall (fun c => length c = 6%nat) chunks -> safe (mulrk_cells fdiv100 en row col chunks).
+Proof.
+  induction chunks as [|c chunks IH]; intros row col H; [exact I|].
+  inversion H as [|? ? H1 H2]; subst. cbn [mulrk_cells].
+  apply safe_bind; [apply rk_num_six, H1|intros d _].
+  apply safe_bind; [apply IH, H2|intros; exact I].
+Qed.
+
+Lemma parse_mul_rk_safe : forall r, safe (parse_mul_rk fdiv100 en r).
+Proof.
+  intros r. unfold parse_mul_rk. cbv zeta.
+  destruct (lenN r <? 6) eqn:E0; [exact I|].
+  set (cf := rd 2 2 r). set (cl := rd 2 (length r - 2) r).
+  destruct (cl + 1 <? cf) eqn:E1; [exact I|].
+  destruct (lenN r =? 6 + 6 * (cl + 1 - cf)) eqn:E2; [|exact I]. cbn [negb].
+  apply mulrk_cells_safe. apply (rk_chunks_six (N.to_nat (cl + 1 - cf))).
+  rewrite firstn_length, skipn_length. unfold lenN in *. lia.
+Qed.
+
+Theorem parse_cell_record_safe : forall typ d, safe (parse_cell_record fdiv100 decode16 en typ d).
+Proof.
+  intros typ d. unfold parse_cell_record.
+  repeat match goal with |- safe (if ?b then _ else _) => destruct b end;
+    first [apply parse_number_safe|apply parse_rk_safe|apply parse_mul_rk_safe
+          |apply parse_bool_err_safe|apply parse_label_sst_safe|apply parse_label_safe|exact I].
+Qed.
+
+Lemma step_safe : forall r cells fpos fmls, safe (step fdiv100 decode16 en r cells fpos fmls).
+Proof.
+  intros [t d c] cells fpos fmls. unfold step. cbn [f_typ f_data]. cbv zeta.
+  repeat match goal with
+         | |- safe (if (t =? _) then _ else _) => destruct (t =? _)
+         end;
+  try (apply safe_bind; [|intros; exact I]);
+  try first [apply parse_dimensions_safe|apply parse_number_safe|apply parse_label_safe
+            |apply parse_bool_err_safe|apply parse_string_safe|apply parse_rk_safe
+            |apply parse_label_sst_safe|apply parse_mul_rk_safe|exact I].
+  - destruct (merge_cells_panics d); exact I.
+  - destruct (lenN d <? 20) eqn:E; [exact I|].
+    apply safe_bind.
+    + apply parse_formula_value_safe. rewrite firstn_length, skipn_length.
+      unfold lenN in E. lia.
+    + intros v _. destruct v as [[]|]; exact I.
+Qed.
+
+(* framing: with fuel above the stream length the CONTINUE collection never runs dry, and what
+   it leaves is no longer than what it got *)
+Lemma take_n_length : forall s n a b, take_n s n = Some (a, b) -> (length b <= length s)%nat.
+Proof.
+  intros s n a b H. apply take_n_Some in H as [-> _]. rewrite app_length. lia.
+Qed.
+
+Lemma collect_cont_safe : forall fuel s acc, (length s < fuel)%nat ->
+  safe (collect_cont fuel s acc) /\
+  forall a r, collect_cont fuel s acc = Ok (a, r) -> (length r <= length s)%nat.
+Proof.
+  induction fuel as [|fuel IH]; intros s acc H; [lia|].
+  cbn [collect_cont].
+  destruct s as [|c0 [|c1 [|l0 [|l1 [|x body]]]]];
+    try (split; [exact I|intros a r E; inversion E; subst; lia]).
+  destruct (u16 c0 c1 =? 60).
+  - destruct (take_n (x :: body) (u16 l0 l1)) as [[dd rest]|] eqn:T.
+    + pose proof (take_n_length _ _ T) as HL. cbn [length] in *.
+      destruct (IH rest (acc ++ [dd])) as [S1 S2]; [lia|].
+      split; [exact S1|]. intros a r E. specialize (S2 a r E). lia.
+    + split; [exact I|discriminate].
+  - split; [exact I|intros a r E; inversion E; subst; lia].
+Qed.
+
+Lemma next_record_safe : forall fuel s, (length s <= fuel)%nat ->
+  match next_record fuel s with
+  | None => True
+  | Some o => safe o /\ forall rr, o = Ok rr -> (length (snd rr) + 4 <= length s)%nat
+  end.
+Proof.
+  intros fuel s H. unfold next_record.
+  destruct s as [|t0 [|t1 [|l0 [|l1 body]]]]; try exact I;
+    try (split; [exact I|discriminate]).
+  destruct (take_n body (u16 l0 l1)) as [[dd next]|] eqn:T; [|split; [exact I|discriminate]].
+  pose proof (take_n_length _ _ T) as HL. cbn [length] in *.
+  destruct (starts_cont next).
+  - destruct (@collect_cont_safe fuel next []) as [S1 S2]; [lia|].
+    destruct (collect_cont fuel next []) as [[a r]| | |] eqn:E; cbn [obind safe] in *;
+      try contradiction; (split; [exact I|]); try discriminate.
+    intros rr Hrr. inversion Hrr; subst. cbn [snd]. specialize (S2 a r eq_refl). lia.
+  - split; [exact I|]. intros rr Hrr. inversion Hrr; subst. cbn [snd]. lia.
+Qed.
+
+Lemma sheet_loop_safe : forall f s cells fpos fmls, (length s <= f)%nat ->
+  safe (sheet_loop fdiv100 decode16 en (S f) s cells fpos fmls).
+Proof.
+  induction f as [|f IH]; intros s cells fpos fmls H.
+  - destruct s; [|cbn [length] in H; lia]. exact I.
+  - cbn [sheet_loop]. pose proof (@next_record_safe (S f) s H) as NR.
+    destruct (next_record (S f) s) as [o|]; [|exact I].
+    destruct NR as [So Hl]. destruct o as [rr|e| |]; cbn [safe] in So; try contradiction;
+      cbn [obind]; [|exact I].
+    specialize (Hl rr eq_refl).
+    pose proof (step_safe (fst rr) cells fpos fmls) as St.
+    destruct (step fdiv100 decode16 en (fst rr) cells fpos fmls) as [fl|e| |];
+      cbn [safe] in St; try contradiction; cbn [obind]; [|exact I].
+    destruct fl as [cells' fpos' fmls'|]; [|exact I].
+    apply IH. lia.
+Qed.
+
+(* C02_no_panic_sheet: for EVERY byte string, at the fuel the model states (stream length + 1),
+   the sheet reader neither panics nor runs out of fuel *)
+Theorem sheet_cells_total : forall stream,
+  sheet_cells fdiv100 decode16 en stream <> Panic /\
+  sheet_cells fdiv100 decode16 en stream <> OutOfFuel.
+Proof. intros stream. apply safe_not. unfold sheet_cells. apply sheet_loop_safe. lia. Qed.
+
+Theorem sheet_model_total : forall stream,
+  sheet_model fdiv100 decode16 en stream <> Panic /\
+  sheet_model fdiv100 decode16 en stream <> OutOfFuel.
+Proof.
+  intros stream. apply safe_not. unfold sheet_model.
+  apply safe_bind; [unfold sheet_cells; apply sheet_loop_safe; lia|intros cf _].
+  destruct (from_sparse_h_ok DEmpty (fst cf)) as [r ->]. cbn [obind].
+  destruct (from_sparse_h_ok tt (map (fun p => (p, tt)) (snd cf))) as [r' ->]. exact I.
+Qed.
+
+Theorem sheet_at_total : forall workbook p,
+  sheet_at fdiv100 decode16 en workbook p <> Panic /\
+  sheet_at fdiv100 decode16 en workbook p <> OutOfFuel.
+Proof.
+  intros workbook p. unfold sheet_at. destruct (lenN workbook <? p).
+  - split; discriminate.
+  - apply sheet_model_total.
+Qed.
+
+Theorem all_records_total : forall s,
+  all_records (S (length s)) s <> Panic /\ all_records (S (length s)) s <> OutOfFuel.
+Proof.
+  intros s. apply safe_not.
+  assert (G : forall f s, (length s <= f)%nat -> safe (all_records (S f) s)).
+  { induction f as [|f IH]; intros s0 H.
+    - destruct s0; [exact I|cbn [length] in H; lia].
+    - cbn [all_records]. pose proof (@next_record_safe (S (S f)) s0) as NR.
+      destruct (next_record (S (S f)) s0) as [o|]; [|exact I].
+      destruct NR as [So Hl]; [lia|].
+      destruct o as [rr|e| |]; cbn [safe] in So; try contradiction; cbn [obind]; [|exact I].
+      specialize (Hl rr eq_refl).
+      apply safe_bind; [apply IH; lia|intros; exact I]. }
+  apply G. lia.
+Qed.
+End Total.
+
+(* the per-parser statements in the form C06 lists them *)
+Theorem parse_cell_record_total : forall fdiv100 decode16 en typ d,
+  parse_cell_record fdiv100 decode16 en typ d <> Panic /\
+  parse_cell_record fdiv100 decode16 en typ d <> OutOfFuel.
+Proof. intros. apply safe_not, parse_cell_record_safe. Qed.
+
+Theorem parse_formula_value_total : forall r, length r = 8%nat ->
+  parse_formula_value r <> Panic /\ parse_formula_value r <> OutOfFuel.
+Proof. intros r H. apply safe_not, parse_formula_value_safe, H. Qed.
+
+Theorem parse_dimensions_total : forall r,
+  parse_dimensions r <> Panic /\ parse_dimensions r <> OutOfFuel.
+Proof. intros r. apply safe_not, parse_dimensions_safe. Qed.
+
+Theorem rk_num_total : forall fdiv100 rk formats is1904,
+  rk_num fdiv100 rk formats is1904 <> Panic <-> length rk = 6%nat.
+Proof.
+  intros fdiv100 rk formats is1904. split.
+  - intros H. destruct (Nat.eq_dec (length rk) 6) as [E|E]; [exact E|].
+    exfalso. apply H. apply rk_num_panics. exact E.
+  - intros H. apply safe_not. apply rk_num_six. exact H.
+Qed.
 
 (* ---------- NUMBER vs RK vs MULRK ---------- *)
 (* numerically equal cell values: an Int k and the double k are the same number *)
@@ -1221,40 +1892,100 @@ Proof.
 Qed.
 
 (* ---------- what lies outside [legal] ---------- *)
-(* outside [legal]: cell records that are not in row order.  from_sparse takes the first and
-   last record's rows as the bounds; a later cell above the first row underflows u32 (panic
-   with overflow checks; without them the cell is silently dropped) *)
-Example unsorted_rows_panic :
+(* outside [legal]: cell records that are not in row order.  Until repo commit 3140dd1
+   from_sparse took the first and last record's rows as the bounds (panic, or cells silently
+   dropped); it now searches all four bounds and these sheets read back in full.  [legal] still
+   asks for row order because the proofs go through C05's specification of the older
+   from_sparse (from_sparse_h_sorted); with C05's resynced spec the hypothesis can be dropped. *)
+Example unsorted_rows_read :
   sheet_model fdiv100 decode16 en
-    (encode_sheet (mkLayout [IBool 5 0 0 true; IBool 2 0 0 false; IBool 6 0 0 true] [])) = Panic.
+    (encode_sheet (mkLayout [IBool 5 0 0 true; IBool 2 0 0 false; IBool 6 0 0 true] []))
+  = Ok (mkRange (2, 0) (6, 0) [DBool false; DEmpty; DEmpty; DBool true; DBool true]).
 Proof. vm_compute. reflexivity. Qed.
 
-Example rows_beyond_last_dropped :
+Example rows_beyond_last_kept :
   sheet_model fdiv100 decode16 en
     (encode_sheet (mkLayout [IBool 2 0 0 true; IBool 7 0 0 false; IBool 3 0 0 true] []))
-  = Ok (mkRange (2, 0) (3, 0) [DBool true; DBool true]).
+  = Ok (mkRange (2, 0) (7, 0) [DBool true; DBool true; DEmpty; DEmpty; DEmpty; DBool false]).
 Proof. vm_compute. reflexivity. Qed.
 
 End Equiv.
 
 (* ---------- non-vacuity ---------- *)
+(* SHRFMLA (0x04BC) for rows 3..4 of column 2; ARRAY (0x0221) anchored at (4, 1) *)
+Definition ex_shrfmla : midrec := (1212, [3; 0; 4; 0; 2; 2; 0; 2; 3; 0; 30; 1; 0]).
+Definition ex_array : midrec := (545, [4; 0; 4; 0; 1; 1; 0; 0; 0; 0; 0; 0; 3; 0; 30; 1; 0]).
+Definition ex_table : midrec := (566, [5; 0; 6; 0; 1; 2; 0; 0; 5; 0; 0; 0; 0; 0; 0; 0]).
+
 Definition example_layout : layout :=
-  mkLayout [IDims true 1 4 0 6; INumber 1 2 0 4607182418800017408; IRk 1 3 0 (RkI (-5) false);
+  mkLayout [index_item 1 65536 [1234];
+            IDims true 1 65536 0 256; row_item 1 2 4 255; row_item 2 1 9 255;
+            INumber 1 2 0 4607182418800017408; IRk 1 3 0 (RkI (-5) false);
             IMulRk 2 1 [(0, RkI 700 true); (1, RkI 7 false); (0, RkF 267911168 true)];
-            ILabelSst 2 5 0 0; ILabelSst 2 4 0 1; IOther 513 [1; 2; 3];
+            ILabelSst 2 5 0 0; ILabelSst 2 4 0 1; blank_item 2 7 0; mulblank_item 2 8 [0; 0; 1];
+            IOther 513 [1; 2; 3];
             IBool 3 0 0 true; IErr 3 1 0 ENA;
-            IFormula 3 2 0 (CStr (mkStr [104; 105] false)) 0 0 [3; 0; 30; 1; 0];
-            IFormula 3 3 0 (CNum 4611686018427387904) 0 0 [3; 0; 30; 1; 0];
+            (* first cell of a shared text formula: FORMULA (PtgExp), SHRFMLA, STRING *)
+            IFormula 3 2 0 (CStr (mkStr [104; 105] false) []) 8 0 [5; 0; 1; 3; 0; 2; 0] [ex_shrfmla];
+            IFormula 3 3 0 (CNum 4611686018427387904) 0 0 [3; 0; 30; 1; 0] [];
             ILabel 4 0 0 (mkStr [] false);
-            IFormula 4 1 0 (CStr (mkStr [] true)) 0 0 [3; 0; 30; 1; 0];
+            (* array-formula anchor returning "": FORMULA, ARRAY, an ignorable record, STRING
+               and a CONTINUE holding only its flag byte *)
+            IFormula 4 1 0 (CStr (mkStr [] true) [mkStr [] false]) 0 0 [5; 0; 1; 4; 0; 1; 0]
+                     [ex_array; (2150, [1; 2])];
+            (* a numeric formula may be followed by TABLE / SHRFMLA too *)
+            IFormula 5 1 0 (CBool true) 0 0 [5; 0; 1; 5; 0; 1; 0] [ex_table];
+            dbcell_item 100 [20; 30];
+            IDims false 1 65535 0 256;
             ILabel 65535 255 0 (mkStr [104; 300] true)] [9; 8; 16; 0].
 Definition example_env : env := mkEnv [FOther; FDateTime] false [[97; 98]; []; [99]].
 
 Lemma example_legal : forall fdiv100 decode16,
   legal fdiv100 decode16 example_env example_layout
         (logical fdiv100 decode16 example_env example_layout) /\
-  length (logical fdiv100 decode16 example_env example_layout) = 13%nat.
+  known_C02 example_layout = None /\
+  length (logical fdiv100 decode16 example_env example_layout) = 14%nat.
 Proof. intros. repeat split; reflexivity. Qed.
+
+(* the named ignorable records are IOther items within wf_item *)
+Lemma ignorable_wf : forall row col ixfe cf ixfes cl h off offs rf rl dbs,
+  lenN ixfes <= 256 -> lenN offs <= 32 -> lenN dbs <= 2048 ->
+  wf_item (blank_item row col ixfe) = true /\
+  wf_item (mulblank_item row cf ixfes) = true /\
+  wf_item (row_item row cf cl h) = true /\
+  wf_item (dbcell_item off offs) = true /\
+  wf_item (index_item rf rl dbs) = true.
+Proof.
+  intros row col ixfe cf ixfes cl h off offs rf rl dbs H1 H2 H3.
+  assert (HF : forall k (l : list N), lenN (flat_map (le_bytes k) l) = N.of_nat k * lenN l).
+  { intros k l. induction l as [|x l IH]; [cbn [flat_map]; rewrite !lenN_nil; lia|].
+    cbn [flat_map]. rewrite lenN_app, lenN_le, lenN_cons, IH. nia. }
+  unfold blank_item, mulblank_item, row_item, dbcell_item, index_item. cbn [wf_item].
+  change (interpreted 513) with false. change (interpreted 190) with false.
+  change (interpreted 520) with false. change (interpreted 215) with false.
+  change (interpreted 523) with false.
+  rewrite !lenN_app, !lenN_head, !lenN_le, !HF, !lenN_cons, !lenN_nil.
+  cbn [N.of_nat Pos.of_succ_nat Pos.succ negb andb].
+  repeat split; lia.
+Qed.
+
+(* known_C02's class is inhabited by a legal layout the model (hence the code, as far as the
+   correspondence goes) reads wrongly: "h" in STRING, "i€" in its CONTINUE *)
+Definition cont_layout : layout :=
+  mkLayout [IFormula 1 1 0 (CStr (mkStr [104] false) [mkStr [105; 8364] true]) 0 0
+                     [3; 0; 30; 1; 0] [ex_shrfmla]] [].
+Definition id_decode (b : list N) : list N := b.
+
+Theorem refuted_string_continue : forall fdiv100,
+  exists c L, legal fdiv100 id_decode example_env c L /\ known_C02 c = Some 1 /\
+    sheet_model fdiv100 id_decode example_env (encode_sheet c) <> Ok (range_of L) /\
+    sheet_model fdiv100 id_decode example_env (encode_sheet c)
+      = Ok (range_of (read_logical fdiv100 id_decode example_env c)).
+Proof.
+  intros fdiv100. exists cont_layout, (logical fdiv100 id_decode example_env cont_layout).
+  split; [repeat split; reflexivity|]. split; [reflexivity|]. split; [|reflexivity].
+  intros H. vm_compute in H. discriminate.
+Qed.
 
 Lemma example_equiv : forall fdiv100,
   form_of fdiv100 4619567317775286272 (RkI 700 true) = true /\       (* 7.0 as 700 / 100 *)
